@@ -271,6 +271,7 @@ func narrowWrapRule(c *Ctx, r *Result, rule string) {
 			}
 			n++
 			if fb.narrowOpFits(bo) {
+				r.Hold(rule, c.Name(fn)+"#narrow-"+bo.Op.String(), c.InstrPos(bo), "operand ranges keep the result inside "+bt.Name())
 				return
 			}
 			per[c.Name(fn)] = append(per[c.Name(fn)], undecidedItem{c.InstrPos(bo), "the " + bt.Name() + " operation " + bo.Op.String() + " is not shown to stay inside the type (it wraps)"})
